@@ -276,6 +276,11 @@
  * tables and machines lacking per-cpu data support.
  */
 #define COUNT_COMMIT_ORDER		10
+#ifdef URCU_VERIF
+#undef COUNT_COMMIT_ORDER
+#define COUNT_COMMIT_ORDER	\
+	((int) urcu_verif_knob(URCU_VERIF_KNOB_COUNT_COMMIT_ORDER, 10))
+#endif
 #define DEFAULT_SPLIT_COUNT_MASK	0xFUL
 #define CHAIN_LEN_TARGET		1
 #define CHAIN_LEN_RESIZE_THRESHOLD	3
@@ -290,6 +295,11 @@
  * Minimum number of bucket nodes to touch per thread to parallelize grow/shrink.
  */
 #define MIN_PARTITION_PER_THREAD_ORDER	12
+#ifdef URCU_VERIF
+#undef MIN_PARTITION_PER_THREAD_ORDER
+#define MIN_PARTITION_PER_THREAD_ORDER	\
+	((int) urcu_verif_knob(URCU_VERIF_KNOB_MIN_PARTITION_ORDER, 12))
+#endif
 #define MIN_PARTITION_PER_THREAD	(1UL << MIN_PARTITION_PER_THREAD_ORDER)
 
 /*
